@@ -801,6 +801,13 @@ pub fn generate(thorough: bool, seed: u64, out: &mut dyn Write) {
                     mips.push(blocks_of(&mut rng, size.max(1), 6));
                     size = (size / 4).max(1);
                 }
+                if n_mips >= 2 && rng.chance(1, 3) {
+                    // filler between the block chains of the LODs (each LOD record has its own offset)
+                    let gaps: Vec<String> = (0..n_mips - 1)
+                        .map(|_| match rng.below(5) { 0 => 0, 1 => 128, 2 => 256, 3 => rng.range(1, 127), _ => 128 * rng.range(1, 40) }.to_string())
+                        .collect();
+                    regular.push(format!("texgap {} {} {} {} {}", units, suffix, hex(&hdr), mips.join("|"), gaps.join("|")));
+                }
                 regular.push(format!("tex {} {} {} {}", units, suffix, hex(&hdr), mips.join("|")));
             }
             _ => {
@@ -874,7 +881,7 @@ pub fn generate(thorough: bool, seed: u64, out: &mut dyn Write) {
     // (file-info header, block table, block headers, payload) changed; the model of the code and
     // the code must agree on what is extracted
     let mut mrng = Rng::new(seed, "C02-mut");
-    for l in regular.iter().filter(|l| l.len() < 12000) {
+    for l in regular.iter().filter(|l| l.len() < 12000 && !l.starts_with("texgap ")) {
         for _ in 0..2 {
             writeln!(out, "mut {} {} {}", mrng.next() >> 1, 1 + mrng.below(3), l).unwrap();
         }
